@@ -10,12 +10,18 @@
     into max_errors+1 consecutive pieces (the pigeonhole premise); short reads always reach
     the aligner of an 'anywhere' adapter.
 
-    NOT proved here (C07_no_change is partial in this respect): the completeness of the search
-    tables, i.e. that every alignment the banded DP accepts leaves one chunk intact inside its
-    window.  That clause rests on the correspondence (model = implementation for tables,
-    kmers_present and prefiltered match_to) and on the with/without-prefilter oracle. *)
+    Completeness of the search tables is proved for matches that cover the whole adapter
+    (C07_whole_adapter_never_rejected: Front, RightmostFront, Back, Anywhere; pigeonhole over the
+    edit script obtained from C01's distance theorem, character compatibility of the aligner's and
+    the k-mer finder's comparison checked by computation over all ASCII pairs).
+
+    NOT proved here (C07_no_change is partial in this respect): completeness for matches that cover
+    only a prefix or suffix of the adapter (the back/front overlap search sets and their windows)
+    and for the non-internal classes.  That clause rests on the correspondence (model =
+    implementation for tables, kmers_present and prefiltered match_to) and on the
+    with/without-prefilter oracle. *)
 From Coq Require Import ZArith List Bool.
-From CV Require Import Model.Align Model.Adapters Model.Kmer Proofs.KmerProofs.
+From CV Require Import Model.Align Model.Adapters Model.Kmer Proofs.AdapterProofs Proofs.KmerProofs Proofs.KmerComplete.
 Import ListNotations.
 Open Scope Z_scope.
 
@@ -45,6 +51,24 @@ Theorem C07_anywhere_short_reads : forall thr ad read,
   prefilter_passes thr ad read = true.
 Proof. exact anywhere_short_reads_pass. Qed.
 Print Assumptions C07_anywhere_short_reads.
+
+Theorem C07_whole_adapter_never_rejected : forall thr ad read mt,
+  (a_type ad = Front \/ a_type ad = RightmostFront \/ a_type ad = Back \/ a_type ad = Anywhere) ->
+  wf_adapter ad -> ascii (a_seq ad) -> ascii read ->
+  0 <= thr (zlen (a_seq ad)) < zlen (a_seq ad) -> (forall L, thr L <= thr (zlen (a_seq ad))) ->
+  match_to thr ad read = Some mt -> astart mt = 0 -> astop mt = zlen (a_seq ad) ->
+  prefilter_passes thr ad read = true.
+Proof. exact whole_adapter_never_prefiltered. Qed.
+Print Assumptions C07_whole_adapter_never_rejected.
+
+(** the premises of C07_whole_adapter_never_rejected are satisfiable: -a ACGTACGTAC (10%) on
+    TTACGTTCGTACGG is a whole-adapter match with one mismatch *)
+Definition whole_ad : adapter := mkAd Back [65;67;71;84;65;67;71;84;65;67] false false true 3 false.
+Example C07_whole_adapter_premises :
+  exists mt, match_to (thr_of [0;0;0;0;0;0;0;0;0;0;1]) whole_ad [84;84;65;67;71;84;84;67;71;84;65;67;71;71] = Some mt
+    /\ astart mt = 0 /\ astop mt = 10 /\ merrors mt = 1
+    /\ prefilter_passes (thr_of [0;0;0;0;0;0;0;0;0;0;1]) whole_ad [84;84;65;67;71;84;84;67;71;84;65;67;71;71] = true.
+Proof. eexists. vm_compute. repeat split. Qed.
 
 (** the two repaired defects, as computations on the model of the repaired code *)
 Definition f7a_ad : adapter := mkAd Suffix [71;67;71;71;65;65;84] false false true 7 false.      (* GCGGAAT$ *)
